@@ -48,7 +48,7 @@ let rb (r : bool Base.res) : string = res_str bool_s r
 let opt_ver = function None -> "-" | Some v -> ver_s v
 
 (* the text-based parts shared by sat and sat-text: ll, lr, ne, le *)
-let text_parts (text : BinNums.coq_N list) (closure : DebVersion.version Sat.lookup) =
+let text_parts (text : BinNums.coq_N list) (closure : BinNums.coq_N list -> DebVersion.version option) =
   let ll = match RelParse.relations_from_str text with
     | Base.Ok t -> rb (Sat.deb_ll_sat t closure)
     | Base.Err _ -> "ERR" | Base.Panic _ -> "PANIC" | Base.OutOfFuel -> "HANG" in
@@ -67,9 +67,17 @@ let sat_text (fs : string list) : string =
   match Sat.deb_type_assignment (parse_assignment (L.nth fs 1)) with
   | None -> "BADCASE"
   | Some asg ->
-    let closure = Sat.LFn (Sat.find_last asg) in
+    let closure = Sat.find_last asg in
     let (ll, lr, ne, le) = text_parts text closure in
     whole_hang [ll; lr] (Printf.sprintf "ll=%s|lr=%s|ne=%s|le=%s" ll lr ne le)
+
+(* S-expression dump of a tree, as Relations::verif_dump prints it: (kind child ...) for nodes,
+   kind:hex for tokens *)
+let rec dump_tree (t : RelLex.rkind Base.elem) : string =
+  match t with
+  | Base.Tok (k, s) -> Printf.sprintf "%d:%s" (int_of_n (RelLex.rkind_code k)) (hx s)
+  | Base.Node (k, cs) ->
+    Printf.sprintf "(%d%s)" (int_of_n (RelLex.rkind_code k)) (cat "" (L.map (fun c -> " " ^ dump_tree c) cs))
 
 (* stream sat: fields = [hex text or "!"; structure; assignment; probes] *)
 let sat (fs : string list) : string =
@@ -77,7 +85,9 @@ let sat (fs : string list) : string =
   match Sat.deb_type_assignment (parse_assignment (L.nth fs 2)) with
   | None -> "BADCASE"
   | Some asg ->
-    let closure = Sat.LFn (Sat.find_last asg) in
+    (* the closure goes to the crate's field-level evaluators; the map and the pair can only be
+       handed to lossy::Relation::satisfied_by, alternative by alternative *)
+    let closure = Sat.find_last asg in
     let hmap = Sat.LMap (Sat.hm_of_list asg) in
     let pair = match asg with [] -> None | (n, v) :: _ -> Some (Sat.LPair (n, v)) in
     let typed = Sat.deb_type_field st in
@@ -87,24 +97,23 @@ let sat (fs : string list) : string =
     let ly = if not has_text then "-" else
       match typed with None -> "ERR" | Some f -> rb (Sat.deb_lossy_sat f closure) in
     let rt = if not has_text then "-" else match typed with None -> "-" | Some _ -> "1" in
-    let lc = match typed with None -> "-" | Some f ->
-      (match Sat.deb_build_field f with
-       | Base.Ok t -> rb (Sat.deb_ll_sat t closure)
-       | Base.Err _ -> "ERR" | Base.Panic _ -> "PANIC" | Base.OutOfFuel -> "HANG") in
-    let on lk = match typed with None -> "-" | Some f -> rb (Sat.deb_lossy_sat f lk) in
-    let yc = on closure and ym = on hmap in
-    let yp = match pair with None -> "-" | Some p -> on p in
-    let sv = match typed with None -> "-" | Some f ->
+    let lc, lcd = match typed with None -> "-", "-" | Some f ->
+      let t = Sat.deb_build_field f in rb (Sat.deb_ll_sat t closure), dump_tree t in
+    let yc = match typed with None -> "-" | Some f -> rb (Sat.deb_lossy_sat f closure) in
+    let by lk = match typed with None -> "-" | Some f -> rb (Sat.deb_by_relation f lk) in
+    let ym = by hmap in
+    let yp = match pair with None -> "-" | Some p -> by p in
+    let sv, svd = match typed with None -> "-", "-" | Some f ->
       (match Sat.deb_sv_field f with
-       | Base.Ok t -> rb (Sat.deb_ll_sat t closure)
-       | Base.Err _ -> "ERR" | Base.Panic _ -> "PANIC" | Base.OutOfFuel -> "HANG") in
+       | Base.Ok t -> rb (Sat.deb_ll_sat t closure), dump_tree t
+       | Base.Err _ -> "ERR", "-" | Base.Panic _ -> "PANIC", "-" | Base.OutOfFuel -> "HANG", "-") in
     let lk = cat "," (L.map (fun n ->
-        Printf.sprintf "%s/%s/%s" (opt_ver (Sat.lookup_version hmap n)) (opt_ver (Sat.lookup_version closure n))
+        Printf.sprintf "%s/%s/%s" (opt_ver (Sat.lookup_version hmap n)) (opt_ver (closure n))
           (match pair with None -> "-" | Some p -> opt_ver (Sat.lookup_version p n)))
         (parse_probes (L.nth fs 3))) in
     whole_hang [ll; lr; ly; lc; yc; ym; yp; sv]
-      (Printf.sprintf "ty=%s|ll=%s|lr=%s|ne=%s|le=%s|ly=%s|rt=%s|lc=%s|yc=%s|ym=%s|yp=%s|sv=%s|lk=%s"
-         (match typed with None -> "0" | Some _ -> "1") ll lr ne le ly rt lc yc ym yp sv lk)
+      (Printf.sprintf "ty=%s|ll=%s|lr=%s|ne=%s|le=%s|ly=%s|rt=%s|lc=%s|yc=%s|ym=%s|yp=%s|sv=%s|lcd=%s|svd=%s|lk=%s"
+         (match typed with None -> "0" | Some _ -> "1") ll lr ne le ly rt lc yc ym yp sv lcd svd lk)
 
 let () = register "sat-text" sat_text
 let () = register "sat" sat
